@@ -278,18 +278,26 @@ def limit(u, total):
 # ------------------------------------------------------------------------------------------------ the oracle
 def verify(case, comps, numbers, heads, rows, printed, summary, toler, chem, ctx):
     inv = case["inv"]
+    soft = bool(os.environ.get("C18_SOFT"))
+
+    def fail(oracle, msg):
+        if soft:
+            ctx.event("soft:" + oracle)
+            ctx.extra.setdefault("soft", []).append(oracle)
+            return
+        raise Violation(oracle, msg)
     nq = len(numbers)
     phases = [p[0] for p in inv["phases"]]
     nph = len(phases)
     # ---- layout of the selected-output row
     if len(heads) != 3 + 3 * nq + 3 * nph:
-        raise Violation("layout", "%d model columns for %d solutions and %d phases: %r" % (len(heads), nq, nph, heads))
+        fail("layout", "%d model columns for %d solutions and %d phases: %r" % (len(heads), nq, nph, heads))
     for j, n in enumerate(numbers):
         if heads[3 + 3 * j] != "Soln_%d" % n:
-            raise Violation("layout", "column %d is %r, expected Soln_%d" % (3 + 3 * j, heads[3 + 3 * j], n))
+            fail("layout", "column %d is %r, expected Soln_%d" % (3 + 3 * j, heads[3 + 3 * j], n))
     for j, p in enumerate(phases):
         if heads[3 + 3 * nq + 3 * j].lower() != p.lower():
-            raise Violation("layout", "column %r where phase %r was expected" % (heads[3 + 3 * nq + 3 * j], p))
+            fail("layout", "column %r where phase %r was expected" % (heads[3 + 3 * nq + 3 * j], p))
     stoich = [chem.elements(p) for p in phases]
     # elements with a mole-balance equation: those of the phases and of -balances
     E = set()
@@ -307,7 +315,7 @@ def verify(case, comps, numbers, heads, rows, printed, summary, toler, chem, ctx
     info = {"nt": False, "max_transfers": 0, "adjusted": 0, "excluded": 0, "verified": 0}
     for mi, r in enumerate(rows):
         if len(r) != len(heads):
-            raise Violation("layout", "model row %d has %d cells, heading has %d" % (mi, len(r), len(heads)))
+            fail("layout", "model row %d has %d cells, heading has %d" % (mi, len(r), len(heads)))
         alpha = [r[3 + 3 * j] for j in range(nq)]
         amin = [r[4 + 3 * j] for j in range(nq)]
         amax = [r[5 + 3 * j] for j in range(nq)]
@@ -316,13 +324,13 @@ def verify(case, comps, numbers, heads, rows, printed, summary, toler, chem, ctx
         xmax = [r[5 + 3 * nq + 3 * j] for j in range(nph)]
         for v in r:
             if not math.isfinite(v):
-                raise Violation("finite", "model %d reports a non-finite value: %r" % (mi, r))
+                fail("finite", "model %d reports a non-finite value: %r" % (mi, r))
         tag = "model %d (fractions %r, transfers %r)" % (mi + 1, alpha, dict(zip(phases, x)))
         # ---- known findings F1 / F2 (see module doc): results of a failed LP are excluded, and counted
         strict = bool(case.get("no_exclusions"))
         pmx = printed[mi] if printed is not None else None
-        lp_notice = (pmx["lp_notice"] if pmx is not None else bool(summary.get("cl1_notice") or summary.get("minwarn")))
-        range_failed = (pmx["range_error"] if pmx is not None else bool(summary.get("range_error")))
+        lp_notice = bool(summary.get("cl1_notice") or summary.get("minwarn") or summary.get("range_error"))
+        range_failed = bool(summary.get("range_error"))
         if lp_notice and not strict:
             ctx.event("excluded:model_after_lp_failure_notice")
             info["excluded"] += 1
@@ -331,14 +339,14 @@ def verify(case, comps, numbers, heads, rows, printed, summary, toler, chem, ctx
         # ---- (c) admissible signs
         for j in range(nq - 1):
             if alpha[j] < -(tol10 * 1.05 + 1e-13):
-                raise Violation("fraction_sign", "%s: mixing fraction of solution %d is negative: %r" % (tag, numbers[j], alpha[j]))
+                fail("fraction_sign", "%s: mixing fraction of solution %d is negative: %r" % (tag, numbers[j], alpha[j]))
         if abs(alpha[-1] - 1.0) > 1e-9:
-            raise Violation("fraction_final", "%s: fraction of the final solution is %r, not 1" % (tag, alpha[-1]))
+            fail("fraction_final", "%s: fraction of the final solution is %r, not 1" % (tag, alpha[-1]))
         for j, (p, con, force) in enumerate(inv["phases"]):
             if con == "dis" and x[j] < -(tol10 * 1.05 + 1e-13):
-                raise Violation("dissolve_only", "%s: dissolve-only phase %s has transfer %r" % (tag, p, x[j]))
+                fail("dissolve_only", "%s: dissolve-only phase %s has transfer %r" % (tag, p, x[j]))
             if con == "pre" and x[j] > (tol10 * 1.05 + 1e-13):
-                raise Violation("precipitate_only", "%s: precipitate-only phase %s has transfer %r" % (tag, p, x[j]))
+                fail("precipitate_only", "%s: precipitate-only phase %s has transfer %r" % (tag, p, x[j]))
         # ---- (d) value inside its range
         if rng and range_failed and not strict:
             ctx.event("excluded:range_of_model_after_range_lp_failure")
@@ -357,10 +365,10 @@ def verify(case, comps, numbers, heads, rows, printed, summary, toler, chem, ctx
                 s = 1e-9 * max(abs(v), abs(lo), abs(hi)) + 2 * tol10
                 ctx.event("range_items")
                 if lo > hi + s:
-                    raise Violation("range_order", "%s: %s: reported minimum %r exceeds the reported maximum %r" % (tag, what, lo, hi))
+                    fail("range_order", "%s: %s: reported minimum %r exceeds the reported maximum %r" % (tag, what, lo, hi))
                 if v < lo - s or v > hi + s:
                     if strict or os.environ.get("C18_STRICT_RANGE"):
-                        raise Violation("range", "%s: %s = %r lies outside its reported range [%r, %r]" % (tag, what, v, lo, hi))
+                        fail("range", "%s: %s = %r lies outside its reported range [%r, %r]" % (tag, what, v, lo, hi))
                     ctx.event("known_F3:value_outside_reported_range")
         # ---- (a) necessary feasibility of every element balance (13-digit values, independent totals and stoichiometry)
         for e in E:
@@ -382,7 +390,7 @@ def verify(case, comps, numbers, heads, rows, printed, summary, toler, chem, ctx
             resid = math.fsum(terms)
             slack = 1e-9 * math.fsum(abs(t) for t in terms) + 2 * tol10 * (1 + nq * len(vrows))
             if abs(resid) > bound + slack:
-                raise Violation("element_balance",
+                fail("element_balance",
                                 "%s: %s balance: sum(alpha*T) + sum(x*c) - T_final = %.6e but the declared uncertainties allow at most %.6e "
                                 "(+ slack %.1e); terms %r" % (tag, e, resid, bound, slack, terms))
         # ---- MaxFracErr (13 digits): the largest relative adjustment of a printed row cannot exceed the largest allowed one
@@ -405,7 +413,7 @@ def verify(case, comps, numbers, heads, rows, printed, summary, toler, chem, ctx
                         continue          # "uncertainty limits less than tol are assumed to be zero"
                     top = max(top, (lim + 2.2 * tol10 / alpha[q]) / t)
             if r[2] > top * (1 + 1e-9) + 1e-12:
-                raise Violation("max_frac_err", "%s: MaxFracErr %r exceeds the largest adjustment the declared uncertainties allow, %r" % (tag, r[2], top))
+                fail("max_frac_err", "%s: MaxFracErr %r exceeds the largest adjustment the declared uncertainties allow, %r" % (tag, r[2], top))
         # ---- (b) printed tables
         if pm is not None:
             adjusted = 0
@@ -424,17 +432,17 @@ def verify(case, comps, numbers, heads, rows, printed, summary, toler, chem, ctx
                         ref = comps[q][key] or 0.0
                         lim = limit(uncertainty(inv, row, q), ref)
                     if abs(vi - ref) > 1.1e-3 * abs(ref) + 2e-14:
-                        raise Violation("printed_input", "%s: solution %d row %s: printed Input %r but the solution holds %r" % (
+                        fail("printed_input", "%s: solution %d row %s: printed Input %r but the solution holds %r" % (
                             tag, numbers[q], row, vi, ref))
                     if vd != 0.0:
                         adjusted += 1
                     sl = 1.1e-3 * abs(vd) + 1e-9 * lim + 2.2 * tol10 / max(alpha[q], 1e-300) + 1e-14
                     if abs(vd) > lim + sl:
-                        raise Violation("delta_limit", "%s: solution %d row %s: |Delta| = %r exceeds the declared uncertainty %r "
+                        fail("delta_limit", "%s: solution %d row %s: |Delta| = %r exceeds the declared uncertainty %r "
                                         "(Input %r, u %r)" % (tag, numbers[q], row, abs(vd), lim, vi,
                                                               ph_uncertainty(inv, q) if row == "pH" else uncertainty(inv, row, q)))
                     if abs(vi + vd - vs) > 1.1e-3 * (abs(vi) + abs(vd)) + 2e-14:
-                        raise Violation("printed_sum", "%s: solution %d row %s: %r + %r printed as %r" % (tag, numbers[q], row, vi, vd, vs))
+                        fail("printed_sum", "%s: solution %d row %s: %r + %r printed as %r" % (tag, numbers[q], row, vi, vd, vs))
             info["adjusted"] = max(info["adjusted"], adjusted)
             balance_rows = list(E)
             if not pm["redox"]:
@@ -468,14 +476,16 @@ def verify(case, comps, numbers, heads, rows, printed, summary, toler, chem, ctx
                 resid = math.fsum(terms)
                 slack = 1.2e-3 * math.fsum(abs(t) for t in terms) + extra + 2 * tol10 * (1 + nq * len(vrows)) + 1e-13
                 if abs(resid) > slack:
-                    raise Violation("printed_balance", "%s: printed Input+Delta rows of %s do not balance: residual %.4e, print-precision "
+                    fail("printed_balance", "%s: printed Input+Delta rows of %s do not balance: residual %.4e, print-precision "
                                     "slack %.2e; terms %r" % (tag, e, resid, slack, terms))
         nz = sum(1 for v in x if abs(v) > 0)
         info["max_transfers"] = max(info["max_transfers"], nz)
         if nz >= 2:
             info["nt"] = True
         hi_set = frozenset([("s", j) for j in range(nq - 1) if alpha[j] != 0.0] + [("p", j) for j in range(nph) if x[j] != 0.0])
-        lo_set = frozenset([("s", j) for j in range(nq - 1) if abs(alpha[j]) > 2.1e-9] + [("p", j) for j in range(nph) if abs(x[j]) > 2.1e-9])
+        # "certainly non-zero": above the engine's zero test (1e-9) and above what the solver tolerance lets slip (10*tol per row)
+        zthr = max(2.1e-9, 2.1 * tol10)
+        lo_set = frozenset([("s", j) for j in range(nq - 1) if abs(alpha[j]) > zthr] + [("p", j) for j in range(nph) if abs(x[j]) > zthr])
         supports.append((hi_set, lo_set, tag))
     # ---- (e) -minimal: no reported model strictly contains another one
     if inv["minimal"]:
@@ -484,7 +494,7 @@ def verify(case, comps, numbers, heads, rows, printed, summary, toler, chem, ctx
                 if a == b:
                     continue
                 if supports[b][0] <= supports[a][1] and len(supports[a][1] - supports[b][0]) > 0:
-                    raise Violation("minimal", "with -minimal, %s strictly contains %s" % (supports[a][2], supports[b][2]))
+                    fail("minimal", "with -minimal, %s strictly contains %s" % (supports[a][2], supports[b][2]))
     return info
 
 
